@@ -58,6 +58,7 @@ def run(rep):
     rep.guard(c01.r2, rep, w)          # a handle kept outside the heap without a root (the class of a built-in error in the class store) dangles after the next collection
     import c12
     rep.guard(c12.h13, rep, w, 'C02')  # a hasher whose write() panics is a host panic for the first key that reaches it
+    rep.guard(c12.h5, rep, w)          # a re-entrancy guard left set makes has_hash answer `true` for ever: an unhashable key then reaches the hasher, whose arm for such kinds is a host panic
     rep.guard(p12, rep, w)
     rep.guard(p13, rep, w)
     import c06
